@@ -644,3 +644,10 @@ func init() {
 		mutant{Name: "redeclared-variable-source-not-checked", Prop: "C12", File: "interp/cfg.go", Old: "\t\t\t\t\t\t\t\t\tif !src.typ.assignableTo(sym.typ) {\n\t\t\t\t\t\t\t\t\t\terr = src.cfgErrorf(\"cannot use type %s as type %s in assignment\", src.typ.id(), sym.typ.id())\n\t\t\t\t\t\t\t\t\t\treturn\n\t\t\t\t\t\t\t\t\t}\n", New: "", Rule: "R12.37", Key: "cfg/case:assignStmt/redeclared#1/keeps-its-type"},
 	)
 }
+
+func init() {
+	addMutants(
+		// D145 reverted
+		mutant{Name: "map-element-addressable-again", Prop: "C12", File: "interp/typecheck.go", Old: "\t\t\tif c0.kind == indexExpr && isMap(c.typ) {\n\t\t\t\treturn n.cfgErrorf(\"invalid operation: cannot take address of a map element\")\n\t\t\t}\n", New: "\t\t\tif isMap(c.typ) {\n\t\t\t\tc0 = c\n\t\t\t\tfound = true\n\t\t\t\tcontinue\n\t\t\t}\n", Rule: "R12.38", Key: "typecheck.addressExpr/case:indexExpr/map-element-not-addressable"},
+	)
+}
